@@ -115,6 +115,9 @@ def run(ctx):
             cases.append((w, True, None))
         else:
             cases.append((progs.gen_world(rng), False, None))
+    # kept nodes shared by several kept parents, next to different siblings in different orders
+    for _ in range(40 if thorough else 12):
+        cases.append((progs.gen_shared_keeps_world(rng), False, None))
     for wi, (w, with_loads, ek) in enumerate(cases):
         ek = ek or ("eval" if rng.random() < 0.6 else "keep")
         entry = {"kind": "eval", "fun": "f0"} if ek == "eval" else {"kind": "keep", "fun": "f0", "path": "/top"}
